@@ -5,7 +5,9 @@ PROP = "C04"
 LEVEL = "exploration"
 COMPONENTS = {"real": base.COMPONENTS_SYS["real"], "stub": base.COMPONENTS_EX["stub"]}
 RULE_TEXT = base.RULE_EX + " || " + base.RULE_SYS
-claims = base.prefix_claims(*"C04.".split(","))
+# an oversold batch accepted by a pool without overcommit voids the premise of the last clause ("without overcommit a
+# container that stays within its allocation is never killed"): the check claims that rule as well
+claims = base.prefix_claims(*"C04.,C03.oversell_accepted".split(","))
 execute = base.dispatch_execute
 prepare_replay = base.dispatch_prepare
 sample = base.dispatch_sample
